@@ -948,6 +948,11 @@ func (s *SecureChannel) sendRequestWithTimeout(
 	ch, err := s.sendAsyncWithTimeout(ctx, req, reqID, instance, authToken, respRequired, timeout)
 	s.pendingReq.Done()
 	if err != nil {
+		// the request did not go out: nobody will answer it,
+		// release the response slot registered for it
+		if respRequired {
+			s.popHandler(reqID)
+		}
 		return err
 	}
 
